@@ -145,7 +145,11 @@ Tamper(kind) ==
     /\ UNCHANGED <<part, f>>
     /\ Record([a |-> "Tamper", args |-> [kind |-> kind], exp |-> [damaged |-> TRUE]], FALSE, <<"Tamper", kind, w>>)
 
-\* ResolveExternalLocation on whatever externalize returned
+\* ResolveExternalLocation on whatever externalize returned.  The store answers
+\* 200 with the object as it now is (Content-Encoding: zstd when it was uploaded
+\* compressed; damage is applied to the decoded stream, so the fetch itself
+\* succeeds and the checksum -- always present on pointers made by externalize,
+\* taken over the stream before compression -- is what has to notice it).
 ResolveOutcome(ws) ==
     IF ws.handle = "same"
     THEN [res |-> "orig", why |-> "passthrough"]            \* !IsExternalLocationBatch
